@@ -478,6 +478,7 @@ func init() {
 			return core.Meta{
 				Level: "fault_enumeration",
 				Rule: "histories over {AddInterceptor (single, duplicates), RemoveInterceptor, ClearInterceptor, SetHTTPClient (same client, fresh client with nil transport, fresh client with custom transport, first client again, client whose transport is this SimpleHTTP, the client it already holds after the caller replaced its Transport by another one or by nil), request (7 direct verbs + SimpleAPI GET/POST)}: every history of length <= D over a 24-letter alphabet (D=4 quick, 5 thorough; the alphabet includes a second SimpleHTTP instance on the same or its own http.Client, built from the same spare-capacity interceptor slice, with its own Add/Remove/requests) each followed by three probe requests one of which has a failing interceptor, plus PRNG histories of length 12 with 0..6 interceptors and a failing interceptor at every position, plus 2..16 goroutines sending through one instance at the same time (every request its own complete pass), plus long histories of 600 (3000) requests on ONE instance whose transport also answers 301/302/303/307/308 (every outgoing request of a redirected call is checked) and where about 40% of the requests are refused by an interceptor at the first or second outgoing request. " +
+					"(round 7) a SimpleHTTP installed as http.DefaultTransport combined with SetHTTPClient of default clients (Transport nil), requests through its own client and through plain http.Client{}; " +
 					"One shared call log written by stub interceptors and stub transports is compared per request with the model registration list: each interceptor once, in order, then exactly one transport call; after a failing interceptor nothing else runs and the error is surfaced; interceptors' header changes reach the transport. Runs in child processes (a recursing chain is a fatal stack overflow). distinct_nontrivial = distinct histories",
 				Assumptions: []string{"RemoveInterceptor removes every occurrence of the named pointer", "which underlying transport a re-set client ends up with is not part of the property; exactly one transport call is",
 					"http.DefaultTransport is replaced by a stub for the run (a client with a nil transport must not reach the network)"},
